@@ -443,6 +443,15 @@ func (pc *prodGen) plain(depth int, allowAlt bool) *Expr {
 
 func (pc *prodGen) plainSeq(depth int) *Expr {
 	r := pc.s.r
+	if r.Chance(1, 4) {
+		// a repeated multi-term group inside the capture: @( ( Ident "," )* Ident? ); its last
+		// iteration can fail part-way, and nothing of it may reach the captured value
+		loop := &Expr{Op: "grp", Mode: r.Pick("*", "+", "*"), Kids: []*Expr{{Op: "seq", Kids: []*Expr{pc.plainTerm(), pc.plainTerm()}}}}
+		if r.Bool() {
+			return &Expr{Op: "seq", Kids: []*Expr{loop, {Op: "grp", Mode: "?", Kids: []*Expr{pc.plainTerm()}}}}
+		}
+		return loop
+	}
 	n := 1 + r.Weighted(3, 2, 1)
 	var kids []*Expr
 	for i := 0; i < n; i++ {
